@@ -257,6 +257,7 @@ func checkTokenBucket(c *Ctx, rule string) {
 		c.Fail(rule, "app:token-bucket-limiter", "", "token bucket admit method not found")
 		return
 	}
+	allow = p.View(allow) // the refill step may live in a helper
 	name := "app." + tname + "." + allow.Name()
 	// classify float fields by role: "tokens" = the field that is decremented by 1; "burst" = the field compared > with tokens and stored into it
 	var tokensField, burstField, lastField string
@@ -481,7 +482,7 @@ func checkTokenBucket(c *Ctx, rule string) {
 	lm := p.lockAnalysis("app", tname, p.mutexField("app", tname))
 	nAcc, badL := 0, false
 	for _, a := range lm.Accesses {
-		if a.Fn == allow {
+		if a.Fn == p.Orig(allow) || p.InlinedCallees(allow)[a.Fn] > 0 {
 			nAcc++
 			if !a.Held {
 				badL = true
@@ -495,7 +496,7 @@ func checkTokenBucket(c *Ctx, rule string) {
 		if t.Signature.Recv() == nil || namedName(t.Signature.Recv().Type()) != "runtimeState" {
 			continue
 		}
-		calls := allCalls(t, func(ci ssa.CallInstruction) bool { return ci.Common().StaticCallee() == allow })
+		calls := allCalls(t, func(ci ssa.CallInstruction) bool { return ci.Common().StaticCallee() == p.Orig(allow) })
 		// the call on the route limiter must be behind a map hit, and its result returned directly
 		okRoute := false
 		for _, ci := range calls {
@@ -516,7 +517,59 @@ func checkTokenBucket(c *Ctx, rule string) {
 				}
 			}
 		}
-		c.Check(okRoute && len(calls) >= 2, rule, "app.runtimeState."+t.Name()+":route-limiter-overrides-global", p.Pos(t.Pos()), "a configured route limiter decides alone; otherwise the global limiter", "the route limiter does not override the global limiter")
+		// one call on a merged limiter: the route's on the hit edge, the global one only on the miss edge
+		merged := false
+		for _, ci := range calls {
+			phi, ok := ci.Common().Args[0].(*ssa.Phi)
+			if !ok {
+				continue
+			}
+			hitOK, globalOK := false, false
+			var hitAll []Edge
+			for i, e := range phi.Edges {
+				lk := lookupOf(e)
+				if lk == nil {
+					continue
+				}
+				var hit []Edge
+				for _, b := range t.Blocks {
+					for k := range b.Succs {
+						a, ok := edgeAtom(Edge{b, k})
+						if ok && isBoolTrue(a.Y) && a.Op == token.EQL {
+							if ex, ok := a.X.(*ssa.Extract); ok && ex.Tuple == lk && ex.Index == 1 {
+								hit = append(hit, Edge{b, k})
+							}
+						}
+					}
+				}
+				pred := phi.Block().Preds[i]
+				viaHit := false
+				for _, he := range hit {
+					if he.From == pred && he.To() == phi.Block() {
+						viaHit = true // the merge edge is the hit edge itself
+					}
+				}
+				if okp, _ := p.MustPass(t, pred.Instrs[len(pred.Instrs)-1], hit); (okp || viaHit) && len(hit) > 0 {
+					hitOK = true
+					hitAll = append(hitAll, hit...)
+				}
+			}
+			for i, e := range phi.Edges {
+				if lookupOf(e) != nil {
+					continue
+				}
+				if _, _, ok := fieldOfLoad(e); ok {
+					pred := phi.Block().Preds[i]
+					if okn, _ := p.NoPathFrom(hitAll, pred.Instrs[len(pred.Instrs)-1], nil); okn && len(hitAll) > 0 {
+						globalOK = true
+					}
+				}
+			}
+			if hitOK && globalOK && returnsCallBool(t, ci) {
+				merged = true
+			}
+		}
+		c.Check((okRoute && len(calls) >= 2) || merged, rule, "app.runtimeState."+t.Name()+":route-limiter-overrides-global", p.Pos(t.Pos()), "a configured route limiter decides alone; otherwise the global limiter", "the route limiter does not override the global limiter")
 	}
 }
 
